@@ -17,6 +17,8 @@ import (
 	"github.com/markusressel/fan2go/internal/curves"
 	"github.com/markusressel/fan2go/internal/fans"
 	"github.com/markusressel/fan2go/internal/persistence"
+	"github.com/markusressel/fan2go/internal/statistics"
+	"github.com/prometheus/client_golang/prometheus"
 )
 
 // ---------------------------------------------------------------------------------------------
@@ -253,6 +255,7 @@ func readIntFile(path string) int {
 // ---------------------------------------------------------------------------------------------
 
 type Ctl struct {
+	reg_  *prometheus.Registry
 	Env   *Env
 	Rec   *Recorder
 	Spec  FanSpec
@@ -294,6 +297,9 @@ func NewCtl(rec *Recorder, spec FanSpec, pwm0, mode0 int, avg0 float64) *Ctl {
 	c.VerifSetPwmMap(mm)
 	fan.SetRpmAvg(avg0)
 	ctl := &Ctl{Env: env, Rec: rec, Spec: spec, Fan: fan, C: c, Curve: curve, Loop: loop}
+	// the Prometheus collectors of this fan and controller, as fan2go registers them
+	ctl.reg_ = prometheus.NewRegistry()
+	ctl.reg_.MustRegister(statistics.NewControllerCollector([]controller.FanController{fc}), statistics.NewFanCollector([]fans.Fan{fan}))
 	env.DrainLog()
 	return ctl
 }
@@ -358,6 +364,27 @@ func (c *Ctl) pwmWrites() (writes []int, modeWrites []int, rerr int) {
 	return
 }
 
+// metrics scrapes the collectors: the values a Prometheus scrape would see right now
+func (c *Ctl) metrics() map[string]int {
+	out := map[string]int{}
+	mfs, err := c.reg_.Gather()
+	if err != nil {
+		return out
+	}
+	for _, mf := range mfs {
+		for _, m := range mf.GetMetric() {
+			v := 0.0
+			if m.GetGauge() != nil {
+				v = m.GetGauge().GetValue()
+			} else if m.GetCounter() != nil {
+				v = m.GetCounter().GetValue()
+			}
+			out[mf.GetName()] = int(v)
+		}
+	}
+	return out
+}
+
 // Cycle performs one UpdateFanSpeed with the given curve value and records it.
 // dt is the (virtual) time in ms the driver let pass since the previous cycle (logged only).
 func (c *Ctl) Cycle(cv int, dt int) (req int, cerr error) {
@@ -389,6 +416,14 @@ func (c *Ctl) Cycle(cv int, dt int) (req int, cerr error) {
 		"unexpected": st.Stats.UnexpectedPwmValueCount,
 		"gmin":       c.Fan.GetMinPwm(), "mx": c.Fan.GetMaxPwm(),
 		"avgm": milli(avgBefore), "avgm2": milli(c.Fan.GetRpmAvg()),
+	}
+	if c.Spec.Kind == "hwmon" { // (scraping a file/cmd fan has side effects: GetRpm stores into the field GetRpmAvg returns; cmd: runs scripts)
+		mt := c.metrics()
+		c.Env.DrainLog()
+		ev["metrics"] = Ev{"unexpected": mt["fan2go_controller_unexpected_pwm_value_count"], "raises": mt["fan2go_controller_increased_minPwm_count"],
+			"offset": mt["fan2go_controller_minPwm_offset"], "pwm": mt["fan2go_fan_pwm"], "n": len(mt)}
+	} else {
+		ev["metrics"] = Ev{"unexpected": -1, "raises": -1, "offset": -1, "pwm": -1, "n": 0}
 	}
 	c.Rec.Emit(ev)
 	return req, cerr
